@@ -111,7 +111,17 @@ class Branch:
         return '%s:%d' % (self.body.file, self.line)
 
 
+_BR = {}
+
+
 def branches(facts, body, stop_named=False):
+    k = (id(facts), body.id, stop_named)
+    if k not in _BR:
+        _BR[k] = _branches(facts, body, stop_named)
+    return _BR[k]
+
+
+def _branches(facts, body, stop_named=False):
     d = describer(facts, body, stop_named)
     live = body.live_blocks()
     res = []
